@@ -106,7 +106,7 @@ fn slpp_cut(full_slp: &[u8], hash: &Option<String>, quirk: Option<bool>, prefix:
 				// skip-frames result: start/end/metadata must be the full game's
 				return match common::slp_read(full_slp, false, false) {
 					Ok(want) => {
-						if g.start == want.start && g.end == want.end && g.metadata == want.metadata && g.gecko_codes == want.gecko_codes && g.frames.id.len() == 0 && &g.hash == hash {
+						if common::same_start(&g.start, &want.start) && g.end == want.end && g.metadata == want.metadata && g.gecko_codes == want.gecko_codes && g.frames.id.len() == 0 && &g.hash == hash {
 							SlppOutcome::Full
 						} else {
 							SlppOutcome::Partial("skip-frames result differs from the full file's start/end/metadata/gecko/hash".into())
